@@ -333,6 +333,7 @@ func c04(c *Ctx) {
 			fmt.Sprintf("true→%s false→%s in both", gr.thenField, gr.elseField), fmt.Sprintf("Get routes true→%s/false→%s but Put true→%s/false→%s", gr.thenField, gr.elseField, pr.thenField, pr.elseField))
 	}
 	errorsExamined(c, "R5.errors-examined", "content store", []string{"storage/pebble"}, "(*storage/pebble.ContentStorage).", "storage/pebble.NewStorage")
+	keyFnLeavesArgumentsAlone(c, m, "R2.key-agreement")
 }
 
 type route struct{ pred, thenField, elseField string }
